@@ -1,27 +1,47 @@
 """C03 — summing or dividing over time uses the exact sub-periods; period mismatches fail.
 
-Protocol (one self-contained request per line, a fresh simulation each time):
+Protocol (one self-contained request per line, a fresh simulation each time, the request made twice):
 
-    add <kind> <cfg> <defUnit> <period|none> <mode>      -> <int> | <p/q> | ERR
+    add <kind> <cfg> <defUnit> <parg> <mode>      -> <int> | <p/q> | ok | ERR
 
     kind   i  int variable whose formula returns ord(period.start) mod 9973
-           f  float variable whose formula returns ord(period.start) mod 1009
+           f  float variable whose 3-argument formula returns ord(period.start) mod 1009
+           g  as i, defined on a group entity (requested through the group population)
            c  int variable without formula, default value 7
            z  neutralised float variable (value 0)
-           (the eternal variable of every kind is constant: 7, or 0 when neutralised)
+           (the eternal variable of every kind is constant: 7 — a scalar returned by its formula —, or
+           0 when neutralised)
     cfg    s  default configuration (values are stored)
            n  MemoryConfig(variables_to_drop=[variable]) : computed values are not stored
-    period unit/Y,M,D/size, or `none` (a period argument that is not int / str / Period)
-    mode   plain | add | div        Simulation.calculate / calculate_add / calculate_divide
-           pop:<opts>               simulation.persons(variable, period, options)
-           frm:<opts>               the same call made from inside another variable's formula
-    opts   - (options=None) | e ([]) | tokens joined by `+`: A = ADD, D = DIVIDE, sA = "ADD",
+           t  simulation.trace = True
+    parg   unit/Y,M,D/size      a Period object
+           S:unit/Y,M,D/size    str(period): the entry point converts it with periods.period
+           I:year/Y,1,1/1       the int Y
+           none                 an argument that is not int / str / Period (1.5; None for `chk`)
+    mode   plain | add | div    Simulation.calculate / calculate_add / calculate_divide
+           out:- | out:A | out:D  Simulation.calculate_output on a variable declaring no calculate_output /
+                                calculate_output_add / calculate_output_divide
+           chk                  population.check_period_validity(variable, argument)
+           pop:<opts>           population(variable, period, options), options in a list
+           frm:<opts>           the same call made from inside another variable's formula
+           popt: / frmt:        the same with the options in a tuple
+    opts   - (options=None) | e (empty sequence) | tokens joined by `+`: A = ADD, D = DIVIDE, sA = "ADD",
            sD = "DIVIDE", X = "LAGRANGIAN", la = "add", ld = "divide"
 
-The values are small integers: every sum is exact in int32 / float32 (kind f: at most 24 years
-of days x 1008 < 2**24). A DIVIDE result is one correctly rounded division of two exactly
-represented integers; the model prints the exact quotient and the comparison reproduces the
+The simulation has 1 to 3 persons (one group each), chosen from the line; every entry of the result
+must be the same value. The values are small integers: every sum is exact in int32 / float32 (kind f:
+at most 24 years of days x 1008 < 2**24). A DIVIDE result is one correctly rounded division of two
+exactly represented integers; the model prints the exact quotient and the comparison reproduces the
 rounding (`float32(a)/float32(n)` for a float variable, `a/n` in float64 for an int variable).
+
+Observations not counted (the statement does not decide them; not generated):
+* options given in a container that is not a `Sequence` (set, frozenset, iterator) are ignored by
+  `CorePopulation.__call__` (the request is served as a plain one): the documented type is
+  `None | Sequence[Option]`; lists, tuples (and str spellings of the members) are generated;
+* `calculate / calculate_add / calculate_divide(name, None)` on a non-eternal variable raises
+  `AttributeError`: an error, of whatever class;
+* an eternal variable with a formula cannot be computed for the dateless ETERNITY period
+  (`Variable.get_formula` formats the instant): compared, not binding.
 """
 from __future__ import annotations
 
@@ -29,6 +49,7 @@ import datetime as dt
 import os
 import random
 import re
+import zlib
 from fractions import Fraction
 
 from ..core import Case, Prop
@@ -40,8 +61,8 @@ FAMILY = {"year": 0, "month": 0, "day": 0, "week": 1, "weekday": 1}
 RANK = {"day": 0, "month": 1, "year": 2, "weekday": 0, "week": 1}
 # how long one unit lasts, in days (an independent table, not the code's unit weights)
 DURATION = {"weekday": 1, "day": 1, "week": 7, "month": 28, "year": 365}
-MOD = {"i": 9973, "f": 1009}
-KINDS = ("i", "f", "c", "z")
+MOD = {"i": 9973, "f": 1009, "g": 9973}
+KINDS = ("i", "f", "g", "c", "z")
 ETERNITY_TOK = "eternity/-1,-1,-1/-1"
 IMPL_ERRORS = (ValueError, IndexError, TypeError, OverflowError)
 
@@ -79,27 +100,37 @@ def parse_line(line):
     if len(f) != 6 or f[0] != "add":
         return None
     _, kind, cfg, du, ps, mode = f
-    if kind not in KINDS or cfg not in ("s", "n") or du not in UNITS:
+    if kind not in KINDS or cfg not in ("s", "n", "t") or du not in UNITS:
         return None
-    period = None
+    period, spelling = None, "P"
     if ps != "none":
+        if ps[:2] in ("S:", "I:"):
+            spelling, ps = ps[0], ps[2:]
         period = _parse_period(ps)
         if period is None:
             return None
+        if spelling == "I" and not (period[0] == "year" and period[1][1:] == (1, 1) and period[2] == 1 and period[1][0] >= 0):
+            return None
     m = mode.split(":")
-    opts = None
+    opts, co, tup = None, None, False
     if m in (["plain"], ["add"], ["div"]):
         if period is None:
             return None
         req = m[0]
-    elif len(m) == 2 and m[0] in ("pop", "frm"):
+    elif m == ["chk"]:
+        req = "chk"
+    elif len(m) == 2 and m[0] == "out":
+        if period is None or m[1] not in ("-", "A", "D"):
+            return None
+        req, co = "out", m[1]
+    elif len(m) == 2 and m[0] in ("pop", "frm", "popt", "frmt"):
         ok, opts = _parse_opts(m[1])
         if not ok:
             return None
-        req = m[0]
+        req, tup = m[0][:3], m[0].endswith("t")
     else:
         return None
-    return dict(kind=kind, cfg=cfg, du=du, period=period, req=req, opts=opts)
+    return dict(kind=kind, cfg=cfg, du=du, period=period, spelling=spelling, req=req, opts=opts, co=co, tup=tup)
 
 
 def _opt_class(t):
@@ -110,6 +141,10 @@ def effective_mode(c):
     """what the request amounts to: plain | add | div | both | unknown | empty | noperiod"""
     if c["req"] in ("plain", "add", "div"):
         return c["req"]
+    if c["req"] == "chk":
+        return "chk"
+    if c["req"] == "out":
+        return {"-": "plain", "A": "add", "D": "div"}[c["co"]]
     if c["period"] is None:
         return "noperiod"
     if c["opts"] is None:
@@ -137,43 +172,58 @@ _CAPTURE = [None]
 def _system():
     if _SYS:
         return _SYS
-    from openfisca_core import entities, periods, taxbenefitsystems, variables
+    from openfisca_core import entities, periods, simulations, taxbenefitsystems, variables
     from openfisca_core.periods import DateUnit
     from openfisca_core.populations import ADD, DIVIDE
 
     person = entities.build_entity(key="person", plural="persons", label="", is_person=True)
-    tbs = taxbenefitsystems.TaxBenefitSystem([person])
+    household = entities.build_entity(key="household", plural="households", label="",
+                                      roles=[{"key": "member", "plural": "members"}])
+    tbs = taxbenefitsystems.TaxBenefitSystem([person, household])
 
     def dated_formula(mod):
         def formula(population, period):
             return population.filled_array(period.start.date.toordinal() % mod)
         return formula
 
-    def constant_formula(population, period):
-        return population.filled_array(7)
+    def dated_formula3(mod):
+        def formula(population, period, parameters):       # the 3-argument form
+            return population.filled_array(period.start.date.toordinal() % mod)
+        return formula
 
+    def constant_formula(population, period):
+        return 7                                           # a scalar: the engine fills the array
+
+    outputs = {"": None, "_oa": simulations.calculate_output_add, "_od": simulations.calculate_output_divide}
     for u in UNITS:
         du = DateUnit(u)
         eternal = u == "eternity"
         attrs = {
             "i": dict(value_type=int, formula=constant_formula if eternal else dated_formula(MOD["i"])),
-            "f": dict(value_type=float, formula=constant_formula if eternal else dated_formula(MOD["f"])),
+            "f": dict(value_type=float, formula=constant_formula if eternal else dated_formula3(MOD["f"])),
+            "g": dict(value_type=int, formula=constant_formula if eternal else dated_formula(MOD["g"])),
             "c": dict(value_type=int, default_value=7),
             "z": dict(value_type=float, formula=constant_formula if eternal else dated_formula(MOD["f"])),
         }
         for kind, a in attrs.items():
-            name = f"v_{kind}_{u}"
-            tbs.add_variable(type(name, (variables.Variable,), dict(entity=person, definition_period=du, **a)))
-            if kind == "z":
-                tbs.neutralize_variable(name)
+            for suffix, co in outputs.items():
+                name = f"v_{kind}_{u}{suffix}"
+                extra = {} if co is None else {"calculate_output": co}
+                tbs.add_variable(type(name, (variables.Variable,), dict(
+                    entity=household if kind == "g" else person, definition_period=du, **a, **extra)))
+                if kind == "z":
+                    tbs.neutralize_variable(name)
 
-    def caller_formula(population, period):
-        name, p, opts = _CALL[0]
-        _CAPTURE[0] = population(name, p, options=opts)
-        return population.filled_array(0.0)
+    def make_caller():
+        def caller_formula(population, period):
+            name, p, opts = _CALL[0]
+            _CAPTURE[0] = population(name, p, options=opts)
+            return population.filled_array(0.0)
+        return caller_formula
 
-    tbs.add_variable(type("caller", (variables.Variable,), dict(
-        entity=person, definition_period=DateUnit.ETERNITY, value_type=float, formula=caller_formula)))
+    for key, ent in (("caller", person), ("caller_g", household)):
+        tbs.add_variable(type(key, (variables.Variable,), dict(
+            entity=ent, definition_period=DateUnit.ETERNITY, value_type=float, formula=make_caller())))
     _SYS.update(tbs=tbs, periods=periods, DateUnit=DateUnit,
                 optmap={"A": ADD, "D": DIVIDE, "sA": "ADD", "sD": "DIVIDE", "X": "LAGRANGIAN",
                         "la": "add", "ld": "divide"})
@@ -190,11 +240,13 @@ def _fmt_frac(x: Fraction) -> str:
     return str(x.numerator) if x.denominator == 1 else f"{x.numerator}/{x.denominator}"
 
 
-def _canon_value(r) -> str:
+def _canon_value(r, count) -> str:
     import numpy
     if isinstance(r, numpy.ndarray):
-        if r.shape != (1,):
+        if r.shape != (count,):
             return f"NONVALUE:shape{r.shape}".replace(" ", "")
+        if not (r == r[0]).all():
+            return "NONVALUE:entries-differ"
         r = r[0]
     if isinstance(r, (bool, numpy.bool_)):
         return "NONVALUE:bool"
@@ -205,18 +257,40 @@ def _canon_value(r) -> str:
     return _fmt_frac(Fraction(float(r)))
 
 
+def _count(line: str) -> int:
+    return 1 + zlib.crc32(line.encode()) % 3
+
+
+def _argument(c):
+    """the period argument as the caller writes it"""
+    if c["period"] is None:
+        return None if c["req"] == "chk" else 1.5        # neither is an int / str / Period
+    p = _real_period(c["period"])
+    if c["spelling"] == "S":
+        return str(p)
+    if c["spelling"] == "I":
+        return c["period"][1][0]
+    return p
+
+
 def impl(case: Case) -> str:
     c = parse_line(case.line)
     if c is None:
         return "BAD"
     sysm = _system()
     from openfisca_core import experimental, simulations
-    name = f"v_{c['kind']}_{c['du']}"
-    sim = simulations.SimulationBuilder().build_default_simulation(sysm["tbs"], 1)
+    req = c["req"]
+    name = f"v_{c['kind']}_{c['du']}" + ({"A": "_oa", "D": "_od"}.get(c["co"], "") if req == "out" else "")
+    count = _count(case.line)
+    sim = simulations.SimulationBuilder().build_default_simulation(sysm["tbs"], count)
     if c["cfg"] == "n":
         sim.memory_config = experimental.MemoryConfig(max_memory_occupation=1, variables_to_drop=[name])
-    p = 1.5 if c["period"] is None else _real_period(c["period"])   # a float is not a valid period argument
-    req = c["req"]
+    elif c["cfg"] == "t":
+        sim.trace = True
+    group = c["kind"] == "g"
+    population = sim.household if group else sim.persons
+    caller = "caller_g" if group else "caller"
+    p = _argument(c)
 
     def once():
         if req == "plain":
@@ -225,23 +299,33 @@ def impl(case: Case) -> str:
             return sim.calculate_add(name, p)
         if req == "div":
             return sim.calculate_divide(name, p)
+        if req == "out":
+            return sim.calculate_output(name, p)
+        if req == "chk":
+            population.check_period_validity(name, p)
+            return "ok"
         opts = None if c["opts"] is None else [sysm["optmap"].get(t, t) for t in c["opts"]]
+        if opts is not None and c["tup"]:
+            opts = tuple(opts)
         if req == "pop":
-            return sim.persons(name, p, options=opts)
+            return population(name, p, options=opts)
         _CALL[0] = (name, p, opts)
         _CAPTURE[0] = None
-        sim.delete_arrays("caller")            # the caller is eternal: forget it so that its formula runs
-        sim.calculate("caller", "2000-01")
+        sim.delete_arrays(caller)              # the caller is eternal: forget it so that its formula runs
+        sim.calculate(caller, "2000-01")
         return _CAPTURE[0]
 
+    def canon(r):
+        return "ok" if req == "chk" and r == "ok" else _canon_value(r, count)
+
     try:
-        first = _canon_value(once())           # canonicalised before the repeat: the array may be shared
+        first = canon(once())                  # canonicalised before the repeat: the array may be shared
     except IMPL_ERRORS:
         return "ERR"
     # the statement holds for every request, not only the first one on a simulation: the same
     # request repeated on the same simulation (values now cached) must give the same answer
     try:
-        again = _canon_value(once())
+        again = canon(once())
     except IMPL_ERRORS:
         again = "ERR"
     return first if again == first else f"{first}#REPEAT:{again}"
@@ -379,6 +463,13 @@ def oracle(case: Case, out: str):
     eternal_p = u == "eternity"
     if not eternal_p and not _valid(s):
         return None
+    if c["spelling"] == "S" and not eternal_p:
+        # the caller wrote str(period): only the printed forms of periods aligned to their own unit
+        # denote the same days again, and twelve months print as one year (C05)
+        if n < 1 or not _aligned(s, u) or (u == "year" and s[2] != 1) or not 1000 <= s[0] <= 9990:
+            return None
+        if u == "month" and n == 12:
+            u, n = "year", 1
     # ---- the situations the statement lists: an error, not a value
     reject = None
     if mode == "plain":
@@ -473,15 +564,18 @@ def nontrivial(case: Case, out: str) -> bool:
 DATES_QUICK = [
     (2018, 1, 1), (2020, 2, 29), (2019, 1, 31), (2020, 12, 28), (2019, 12, 31), (2020, 1, 1),
     (2021, 1, 3), (2019, 3, 1), (2021, 12, 31), (2100, 2, 28), (2015, 12, 28), (2019, 7, 15),
+    # ISO years: W01 beginning in December (Monday 2018-12-31, Monday 2019-12-30), Sunday of 2015-W53
+    (2018, 12, 31), (2019, 12, 30), (2016, 1, 3),
 ]
 DATES_MORE = [
-    (2000, 2, 29), (2019, 2, 28), (2020, 11, 30), (2018, 12, 31), (2024, 12, 30), (2016, 1, 1),
+    (2000, 2, 29), (2019, 2, 28), (2020, 11, 30), (2026, 1, 1), (2024, 12, 30), (2016, 1, 1),
     (2016, 2, 1), (2017, 1, 2), (2021, 1, 4), (2026, 12, 28), (2027, 1, 1), (1900, 3, 1),
     (2400, 2, 29), (1999, 12, 31), (2004, 2, 28), (2023, 4, 30), (2022, 5, 31), (2020, 3, 31),
     (2020, 6, 1), (2019, 10, 27), (2032, 12, 27), (2012, 2, 29), (1000, 1, 1), (4, 2, 29),
-    (9000, 12, 31), (2, 1, 1), (9970, 1, 1), (2019, 12, 30),
+    (9000, 12, 31), (2, 1, 1), (9970, 1, 1), (2009, 12, 28),
 ]
-MAIN_MODES = ["plain", "add", "div", "frm:-", "frm:A", "frm:D", "frm:A+D", "frm:X"]
+MAIN_MODES = ["plain", "add", "div", "frm:-", "frm:A", "frm:D", "frm:A+D", "frm:X", "out:-", "out:A", "out:D"]
+TEXT_MODES = ["plain", "add", "div", "pop:-", "frm:A", "pop:D", "out:A", "out:D"]
 OPTION_FORMS = ["-", "A", "D", "A+D", "D+A", "X", "sA", "sD", "sA+sD", "A+sD", "la", "ld", "la+ld", "X+A",
                 "A+X", "X+D", "D+X", "X+X", "A+A", "D+D", "e", "A+D+X", "X+A+D"]
 
@@ -505,6 +599,7 @@ def _mk(kind, cfg, du, ptok, mode, claimed=True, tags=()):
     if c and c["period"]:
         u, s, n = c["period"]
         t.append(f"req:{u}")
+        t.append("arg:" + {"P": "Period", "S": "str", "I": "int"}[c["spelling"]])
         t.append("size:" + ("<=0" if n <= 0 else "1" if n == 1 else "2-3" if n <= 3 else "4-12" if n <= 12 else ">12"))
         if c["period"][0] != "eternity" and du != "eternity":
             fam = "same-family" if FAMILY[du] == FAMILY[u] else "cross-family"
@@ -549,15 +644,47 @@ def _matrix(dates, sizes, kinds_for, modes_for):
             for du in UNITS:
                 for kind in kinds_for(idx, n):
                     for mode in modes_for(du, u, n, kind):
-                        out.append(_mk(kind, "s", du, ptok, mode))
+                        out.append(_mk(kind, "t" if idx % 5 == 4 else "s", du, ptok, mode))
     for du in UNITS:
-        for kind in ("i", "f"):
+        for kind in ("i", "f", "g"):
             for mode in MAIN_MODES + ["pop:A", "pop:D", "pop:-"]:
                 # an eternal variable with a formula cannot be computed for the dateless ETERNITY period
                 # (Variable.get_formula formats the instant): recorded observation, not binding
-                plainish = mode in ("plain", "frm:-", "pop:-")
+                plainish = mode in ("plain", "frm:-", "pop:-", "out:-")
                 out.append(_mk(kind, "s", du, ETERNITY_TOK, mode,
                                claimed=not (du == "eternity" and plainish), tags=("eternity-period",)))
+    return out
+
+
+def _own_aligned(u, s):
+    return _aligned(s, u) and (u != "year" or s[2] == 1)
+
+
+def _text_stream(dates, sizes, kinds):
+    """the period written as text (str(period)) or as an int: every entry point converts it with
+    periods.period; week and weekday texts go through the ISO calendar (W01 in December, W53)"""
+    out = []
+    starts = [(u, s) for (u, s) in _period_starts(dates) if _own_aligned(u, s) and 1000 <= s[0] <= 9990]
+    for idx, (u, s) in enumerate(starts):
+        for n in sizes:
+            kind = kinds[(idx + n) % len(kinds)]
+            for du in UNITS:
+                for mode in TEXT_MODES:
+                    out.append(_mk(kind, "s", du, "S:" + _tok(u, s, n), mode, tags=("text",)))
+                if u == "year" and (s[1], s[2]) == (1, 1) and n == 1:
+                    for mode in TEXT_MODES:
+                        out.append(_mk(kind, "s", du, "I:" + _tok(u, s, n), mode, tags=("int",)))
+    for du in UNITS:
+        for mode in TEXT_MODES:
+            plainish = mode in ("plain", "pop:-", "out:-")
+            out.append(_mk("i", "s", du, "S:" + ETERNITY_TOK, mode,
+                           claimed=not (du == "eternity" and plainish), tags=("text", "eternity-period")))
+    # check_period_validity looks at the type of the argument only
+    for du in ("month", "eternity"):
+        for ptok in ("none", "month/2020,1,1/1", "S:month/2020,1,1/1", "I:year/2020,1,1/1", "S:week/2019,12,30/1",
+                     ETERNITY_TOK, "year/2020,1,1/3"):
+            for kind in ("i", "g"):
+                out.append(_mk(kind, "s", du, ptok, "chk", tags=("chk",)))
     return out
 
 
@@ -583,13 +710,16 @@ def _side_streams(rng, dates, n_opts):
         n = rng.choice([1, 1, 2, 3])
         du = rng.choice(UNITS)
         form = rng.choice(OPTION_FORMS)
-        via = rng.choice(["pop", "frm"])
-        out.append(_mk(rng.choice(["i", "f"]), "s", du, _tok(u, s, n), f"{via}:{form}", tags=("options",)))
+        via = rng.choice(["pop", "frm", "popt", "frmt"])
+        spell = "S:" if (rng.random() < 0.25 and _own_aligned(u, s) and 1000 <= s[0] <= 9990) else ""
+        out.append(_mk(rng.choice(["i", "f", "g"]), rng.choice(["s", "s", "t"]), du, spell + _tok(u, s, n),
+                       f"{via}:{form}", tags=("options",)))
     # a period argument that is not a period; sizes 0 and negative (answered, not binding);
     # impossible dates (the period algebra raises)
     for du in UNITS:
         for form in ("-", "A", "D", "X"):
-            out.append(_mk("i", "s", du, "none", f"pop:{form}", tags=("no-period",)))
+            for via in ("pop", "frm"):
+                out.append(_mk("i", "s", du, "none", f"{via}:{form}", tags=("no-period",)))
         for u in DATED:
             for n in (0, -1):
                 for mode in ("plain", "add", "div"):
@@ -601,20 +731,23 @@ def _side_streams(rng, dates, n_opts):
     for line in ["add", "add i s month", "add q s month month/2020,1,1/1 add", "add i x month month/2020,1,1/1 add",
                  "add i s fortnight month/2020,1,1/1 add", "add i s month month/2020,1/1 add",
                  "add i s month month/2020,1,1/1 sum", "add i s month month/2020,1,1/1 pop:A++D",
-                 "add i s month none add", "add i s month month/2020,1,1/x div", "add i s month month/2020,1,1/1 pop"]:
+                 "add i s month none add", "add i s month month/2020,1,1/x div", "add i s month month/2020,1,1/1 pop",
+                 "add i s month I:month/2020,1,1/1 add", "add i s month I:year/2020,2,1/1 add", "add i s month X:year/2020,1,1/1 add",
+                 "add i s month year/2020,1,1/1 out:X", "add i s month none out:A", "add i s month year/2020,1,1/1 chk:A",
+                 "add i s month S: add", "add g u month year/2020,1,1/1 add"]:
         out.append(Case(line=line, claimed=True, tags=("malformed",)))
     return out
 
 
 def _thorough_kinds(idx, n):
-    return ("i", "f")
+    return ("i", "f", "g") if n in (1, 2, 3, 12, 24) else ("i", "f")
 
 
 def _thorough_modes(du, u, n, kind):
     # the formula-side duplicates of the long sums on a sub-lattice of sizes
     if n in (1, 2, 3, 12, 24) or _heavy(du, u, n) < 1000:
         return MAIN_MODES
-    return ["plain", "add", "div", "frm:-", "frm:D", "frm:A+D", "frm:X"]
+    return ["plain", "add", "div", "frm:-", "frm:D", "frm:A+D", "frm:X", "out:-", "out:D"]
 
 
 def _unclaim_edges(cases):
@@ -631,14 +764,16 @@ def generate(rng: random.Random, tier: str):
         dates = list(DATES_QUICK)
         for _ in range(6):   # six further dates drawn per seed
             dates.append((rng.choice([1996, 2003, 2011, 2020, 2024, 2031, 2096, 2104]), rng.randint(1, 12), rng.randint(1, 28)))
-        out = _matrix(dates, (1, 2, 3, 12), lambda idx, n: ("i",) if idx % 2 == 0 else ("f",),
+        out = _matrix(dates, (1, 2, 3, 12), lambda idx, n: (("i", "f", "g")[(idx + n) % 3],),
                       lambda du, u, n, kind: MAIN_MODES)
+        out += _text_stream(dates, (1, 2, 3, 12), ("i", "f", "g"))
         out += _side_streams(rng, dates, 600)
     else:
         # the fixed 40 dates are enumerated completely by enumerate_thorough(); here: dates drawn per seed
         dates = [(rng.randint(1950, 2150), rng.randint(1, 12), rng.randint(1, 28)) for _ in range(4)]
         dates.append((rng.choice([2020, 2024, 2000, 2400]), 2, 29))
         out = _matrix(dates, tuple(range(1, 25)), _thorough_kinds, _thorough_modes)
+        out += _text_stream(DATES_QUICK + DATES_MORE + dates, tuple(range(1, 25)), ("i", "f", "g"))
         out += _side_streams(rng, DATES_QUICK + dates, 6000)
     return _unclaim_edges(out)
 
@@ -671,6 +806,17 @@ def corpus():
         _mk("i", "s", "weekday", "week/2020,12,28/2", "add", tags=("corpus",)),
         _mk("f", "s", "week", "weekday/2021,1,3/1", "div", tags=("corpus",)),
         _mk("i", "s", "month", "year/2019,3,1/2", "add", tags=("corpus",)),
+        # text / int arguments, ISO-year boundaries, calculate_output, group entity, trace
+        _mk("i", "s", "month", "S:year/2020,1,1/1", "add", tags=("corpus", "text")),
+        _mk("f", "s", "year", "I:year/2020,1,1/1", "div", tags=("corpus", "int")),
+        _mk("i", "s", "weekday", "S:week/2019,12,30/2", "add", tags=("corpus", "text")),
+        _mk("g", "t", "week", "S:weekday/2021,1,3/1", "div", tags=("corpus", "text")),
+        _mk("i", "s", "week", "S:week/2020,12,28/1", "plain", tags=("corpus", "text")),
+        _mk("i", "s", "year", "S:month/2020,1,1/12", "plain", tags=("corpus", "text")),
+        _mk("i", "s", "month", "year/2020,1,1/1", "out:A", tags=("corpus",)),
+        _mk("f", "s", "year", "month/2020,2,1/1", "out:D", tags=("corpus",)),
+        _mk("i", "s", "month", "year/2020,1,1/1", "out:-", tags=("corpus",)),
+        _mk("g", "s", "day", "month/2020,2,1/1", "frmt:A", tags=("corpus",)),
     ]
     return out
 
